@@ -3,6 +3,7 @@ From Coq Require Import ZArith NArith List Bool Reals Floats.
 From PV Require Import Num NumR model.Optimiser model.OptSpec proofs.OptStruct proofs.OptLoop proofs.FloatFacts proofs.RealFacts.
 From PV Require Import model.Cli gen.GenCli proofs.CliFacts.
 From PV Require Import gen.GenFns proofs.SourceFacts.
+From PV Require Import proofs.StepFacts.
 
 Theorem C19_ratio_le_one :
   forall (NN : Num) (fexp : carrier NN -> carrier NN) (score : N -> list (carrier NN) -> option
@@ -76,4 +77,38 @@ Theorem C19_clamp_is_source :
   forall (NN : Num) (lo hi x : carrier NN), gen_clamp NN lo hi x = nclamp lo hi x.
 Proof. exact clamp_is_source. Qed.
 Print Assumptions C19_clamp_is_source.
+
+
+Theorem C19_ratio_nonneg :
+  forall (NN : Num) (fexp : carrier NN -> carrier NN) (score : N -> list (carrier NN) -> option
+    (carrier NN)), (forall (x : carrier NN) (i r : N), (@n0 NN <=? x)%num = true -> (@n0 NN <=?
+    @nmin NN (x * (ofN NN i / (ofN NN r + @n1 NN))) (@n1 NN))%num = true) -> (@n0 NN <=? @n1
+    NN)%num = true -> forall (c : cfg NN) (ps : list (carrier NN)) (hs : list (handle NN)) (s0 :
+    carrier NN) (draws : list (draw NN)), (@n0 NN <=? ratio NN (run NN fexp score c (init NN c
+    ps hs s0) draws))%num = true.
+Proof. exact OptLoop.C19_ratio_nonneg. Qed.
+Print Assumptions C19_ratio_nonneg.
+
+Theorem C19_ratio_nonneg_real_premise :
+  forall (x : carrier NumR) (i r : N), (@n0 NumR <=? x)%num = true -> (@n0 NumR <=? @nmin NumR
+    (x * (ofN NumR i / (ofN NumR r + @n1 NumR))) (@n1 NumR))%num = true.
+Proof. exact R_Hnn. Qed.
+Print Assumptions C19_ratio_nonneg_real_premise.
+
+Theorem C19_ratio_in_unit_interval_real :
+  forall (fexp : R -> R) (score : N -> list R -> option R) (c : cfg NumR) (ps : list (carrier
+    NumR)) (hs : list (handle NumR)) (s0 : carrier NumR) (draws : list (draw NumR)), (0 <= ratio
+    NumR (run NumR fexp score c (init NumR c ps hs s0) draws) <= 1)%R.
+Proof. exact R_ratio_in_unit_interval. Qed.
+Print Assumptions C19_ratio_in_unit_interval_real.
+
+Theorem C19_every_move_bounded_real :
+  forall (fexp : R -> R) (score : N -> list R -> option R) (c : cfg NumR) (ps : list (carrier
+    NumR)) (hs : list (handle NumR)) (s0 : carrier NumR) (draws : list (draw NumR)) (h : handle
+    NumR) (v g : R), let st := run NumR fexp score c (init NumR c ps hs s0) draws in (h_min NumR
+    h <= v <= h_max NumR h)%R -> (Rabs g <= 1 / 2)%R -> (0 <= max_step NumR c)%R -> (Rabs
+    (nclamp (h_min NumR h) (h_max NumR h) (sample NumR h v (max_step NumR c * ratio NumR st)%num
+    g) - v) <= max_step NumR c * (h_max NumR h - h_min NumR h) / 2)%R.
+Proof. exact R_C19_every_move_bounded. Qed.
+Print Assumptions C19_every_move_bounded_real.
 
